@@ -23,6 +23,7 @@ P("C41",
              "interleaving model under the named atomicity assumption; the real sync/atomic is only exercised by the stress "
              "(observed data: distinct && nonzero && exactly 1..N). encoding/json decoding of arbitrary text is not modelled "
              "(only the canonical text and a DTO view). c41_model_agreement_implies_property proves check_case -> holds_on for scripts inside the property's range (wf_case).",
+  quick_shards=8,
   assumptions=["sync/atomic.AddUint64 is one indivisible fetch-and-add returning the new value (Go memory model)",
                "fewer than 2^64 IDs are handed out between explicit counter settings (after that the counter wraps and hands out 0: c41_wrap_witness)"],
   trusted=["modelled, not verified: timing/idgenerator.go, timing/idgenerator_checkpoint.go",
